@@ -270,6 +270,10 @@ def check_join(case):
     items = flat(args)
     want = ''.join('' if x is None else (x if isinstance(x, str) else str(x)) for x in items)
     want_text('CONCATENATE(%s)' % ','.join(names), env, want, 'CONCATENATE of %r' % (args,))
+    if any(isinstance(a, list) and any(isinstance(e, list) for e in a) for a in args):
+        # the rows of a host table as tuples (what a database cursor hands out): a sequence below the top level is flattened whichever of the two it is
+        targs_ = [[tuple(e) if isinstance(e, list) else e for e in a] if isinstance(a, list) else a for a in args]
+        want_text('CONCATENATE(%s)' % ','.join(names), Env(vars=dict(zip(names, targs_))), want, 'CONCATENATE of %r' % (targs_,))
 
     def written(names_, args_):
         # the same list with its blank items left out of the text (an omitted slot is a blank), in one of the three separator styles; the grammar takes
@@ -369,7 +373,7 @@ LAWS = [
     Law('concat_join', check_join, strategy=join_case(), key=join_key, quick=2000, thorough=100000,
         classes=lambda c: ((join_key(c) or 'no-blank'), 'ignore:%s' % c['ignore']), required=('blank-item', 'ignore:True', 'ignore:False'),
         nontrivial=lambda c: len(c['items']) >= 2,
-        rule='1-8 items (text, integers, blanks) regrouped into scalar / flat-array / nested-array arguments: CONCATENATE = join of the flattened items; TEXTJOIN(d, flag, text-or-blank items) joins with d, dropping blanks iff flag'),
+        rule='1-8 items (text, integers, blanks) regrouped into scalar / flat-array / nested-array arguments (the inner rows as lists and as tuples): CONCATENATE = join of the flattened items; TEXTJOIN(d, flag, text-or-blank items) joins with d, dropping blanks iff flag'),
     Law('substitute', check_subst, strategy=subst_case(), key=subst_key, quick=3000, thorough=200000,
         classes=lambda c: ((subst_key(c) or 'new-nonempty'), 'k' if c['k'] is not None else 'all', 'occ%d' % min(2, len(c['fillers']) - 1)),
         required=('new-empty', 'k', 'all', 'occ0', 'occ2'),
